@@ -11,6 +11,7 @@ from harness import common as C
 from harness import fw
 from harness import c02_fngen as FG
 from harness import c02_ctl as CT
+from harness import c02_retype as RT
 from harness import pyast_wire as W
 
 META = {
@@ -1283,6 +1284,7 @@ WITNESSES = {
     "F-C02-param-declared-from-last-label": {"body": "def f(p):\n    q = p * 2\n    p = 1\n    return q\nx = 2.5\na = f(x)\nmon.write(a)\n", "loops": 0},
     "F-C02-read-before-typed": {"body": "k = 0\nwhile k < 2:\n    if k > 0:\n        b = z\n        mon.write(b)\n    z = 2.5\n    k = k + 1\n", "loops": 0},
     "F-C02-forward-call-result-typed-int": {"body": "def scaled(x):\n    return twice(x) + 1\ndef twice(v):\n    return v * 0.5\nw = scaled(3)\nmon.write(w)\n", "loops": 0},
+    "F-C02-call-site-never-typed": {"body": "def dbl(p):\n    return int(p * 2)\nx = 2.5\nflag = (dbl(x) > 4)\nmon.write(flag)\nmon.write(dbl(x))\nn = 0\nif dbl(x) > 4:\n    n = 1\nmon.write(n)\n", "loops": 0},
     "F-C02-widened-variant-overwritten": {"body": "def blend(a, b):\n    w = a * 2\n    a = a + b\n    return a + w\nx = 0.75\ny = 0.25\np = blend(x, y)\nq = blend(1, y)\nmon.write(p)\nmon.write(q)\n", "loops": 0},
 }
 
@@ -1388,6 +1390,47 @@ def part_d(ctx, stats):
     sketches = [(src, r["cpp"]) for src, r in zip(srcs, res) if r.get("cpp")]
     return len(progs) + values, [srcs[nfixed][len(HEADER):]], sketches
 
+
+
+# --------------------------------------------------------------------------- part (h): re-typing tuple assignments, call sites nested in builtins
+def part_h(ctx, stats):
+    """firmware values vs CPython values for (T) tuple assignments whose right-hand elements read a name that another
+    target of the same statement re-types and (B) helpers whose float / bool call signature occurs only at call sites
+    nested inside a builtin call on an assignment / return right-hand side (harness/c02_retype.py)"""
+    rng = ctx.rng
+    n = 400 if ctx.tier == "thorough" else 16
+    d = {}
+    progs = RT.programs(rng, n, d)
+    nfixed = len(RT.FIXED)
+    srcs = [HEADER + b for b, _ in progs]
+    loops = [l for _, l in progs]
+    res = run_value_pairs(srcs, ["" for _ in progs], loops)
+    st, values, nontrivial = {}, 0, set()
+    rows = sorted(enumerate(zip(srcs, loops, res)), key=lambda kr: (kr[1][2]["status"] != "DIFF", len(kr[1][0])))
+    for k, (src, l, r) in rows:                              # failing scripts shortest first: the replay is the smallest one
+        st[r["status"]] = st.get(r["status"], 0) + 1
+        case = {"script": src, "input": "", "loops": l}
+        if r["status"] == "DIFF":
+            ctx.fail("a value on the device differs from the value CPython holds (tuple assignment reading a name it re-types / "
+                     "call site nested in a builtin; program inside the guard)",
+                     case, r["py"], {"first_difference": r["diff"], "firmware": r["fw"], "cpp": r["cpp"]}, key="value-diff-retype")
+        elif r["status"] == "nocompile":
+            ctx.fail("accepted script inside the guard does not compile (part h)", case, "compilable C++", r["log"], key="nocompile-retype")
+        elif r["status"] == "fw-crash":
+            ctx.fail("firmware crashed", case, "rc 0", r, key="fw-crash-retype")
+        elif r["status"] == "rejected":
+            ctx.fail(f"transpiler rejected a program inside the guard ({r['exc']})", case, "accepted", r, key="rejected-retype")
+        elif r["status"] == "py-undefined":
+            ctx.disagree("harness self-check: a program of part (h) is not a valid CPython program", src, "runs", r)
+        elif r["status"] == "equal":
+            values += r["n_values"]
+            if r["n_values"] >= 2:
+                nontrivial.add(src)
+    d.update({"programs": len(progs), "fixed_class_representatives": nfixed, "by_status": st, "values_compared": values,
+              "programs_with_main_loop": sum(1 for l in loops if l)})
+    stats["retype_programs"] = d
+    stats["retype_distinct_nontrivial"] = len(nontrivial)
+    return len(progs) + values, [srcs[nfixed][len(HEADER):]]
 
 # --------------------------------------------------------------------------- part (e): control-flow scripts
 def ctl_plain(pre, main):
@@ -1932,11 +1975,12 @@ def run(ctx: C.Ctx):
     ne, samples_e = part_e(ctx, stats)
     nf, samples_f = part_f(ctx, stats)
     ng = part_g(ctx, stats, sketches)
+    nh, samples_h = part_h(ctx, stats)
     ctx.coverage.update({
-        "evaluations": n + nb + nc + nd + ne + nf + ng,
-        "distinct_nontrivial": stats.get("infer_distinct_nontrivial", 0) + stats.get("decl_distinct_nontrivial", 0) + stats.get("value_distinct_nontrivial", 0) + stats.get("function_distinct_nontrivial", 0) + stats.get("ctl_distinct_nontrivial", 0) + stats.get("fnbody_distinct_nontrivial", 0),
+        "evaluations": n + nb + nc + nd + ne + nf + ng + nh,
+        "distinct_nontrivial": stats.get("infer_distinct_nontrivial", 0) + stats.get("decl_distinct_nontrivial", 0) + stats.get("value_distinct_nontrivial", 0) + stats.get("function_distinct_nontrivial", 0) + stats.get("ctl_distinct_nontrivial", 0) + stats.get("fnbody_distinct_nontrivial", 0) + stats.get("retype_distinct_nontrivial", 0),
         "distribution": stats,
-        "samples": samples_b[:1] + samples_c + samples_d + samples_e + samples_f,
+        "samples": samples_b[:1] + samples_c + samples_d + samples_e + samples_f + samples_h,
         "rule": ("(a) _infer_expr_type: ~115 fixed boundary expressions (every clause of the model, with/without ctx, with generated var_types / "
                  "functions / aliases / device-name sets) + seeded random typed expressions (depth 1-4, all node kinds incl. calls to user functions, "
                  "methods, lists, subscripts, f-strings, unsupported nodes) + the shared Lang generator; compared: label, ValueError, and the MUTATED "
@@ -2003,7 +2047,18 @@ def run(ctx: C.Ctx):
                  "overload reached among the declarations REALLY visible there (extracted model on the real declarations) vs among "
                  "all emitted variants - a difference that narrows an argument is a violation with the script and the call as replay.  "
                  "(g3) fixed programs with callers above their helper: emission order of the variants and call_guard of the model "
-                 "(run_items) vs the real sketch; the meant variant is reached from the body the call is written in."),
+                 "(run_items) vs the real sketch; the meant variant is reached from the body the call is written in.  "
+                 "(h) harness/c02_retype.py, same value oracle as (c)/(d): (T) tuple assignments whose right-hand elements read a name that "
+                 "another target of the SAME statement re-types to a narrower kind (float -> int / bool, int -> bool; the re-typed target "
+                 "first, in the middle, last; the reading element the bare name or an expression over it; one or two receivers, new or "
+                 "already declared) at column 0, inside for / while / if, in the main loop, inside a helper body and inside a loop of a "
+                 "helper body (result returned under int and float signatures), then the re-typed name re-assigned at its declared kind "
+                 "from the receiver; (B) 1-3 helpers per program whose float / bool / int call signatures occur ONLY nested inside "
+                 "str / bool / abs / min / max / len / int / float (one or two deep, inside arithmetic, unary minus, a conditional "
+                 "expression, a tuple element, an augmented assignment, a comprehension element) on the right-hand side of an "
+                 "assignment at column 0 / in a block / in the main loop or of a return / local of a wrapper function, the call "
+                 "first or second argument of min / max, its result optionally passed through a second helper that is itself only "
+                 "called there; 13 fixed representatives at every seed; non-trivial = >= 2 compared values."),
         "guard": ("expressions: Lang/InferGuard.v guard (no string contagion onto a numeric name, numeric operands, `/` and `**` only with a float "
                   "operand, no unary minus on a bool label, and/or only on bool labels, conditional expression with equal or numeric labels, abs/min/max "
                   "on int/bool labels, uniform or numeric list elements, subscripts of list labels, no tuples). programs (theorem): flat_guard = every "
@@ -2037,7 +2092,11 @@ def run(ctx: C.Ctx):
                   "Calls (theorem C02_call_site_reaches_the_specialised_variant_partial): call_guard of Lang/FnProto.v - the variant the alias "
                   "table resolves the site's labels to is emitted and either has exactly the argument types or wins C++ overload resolution "
                   "among all emitted variants of the name (F-C06-overload-ambiguous / F-C02-widened-variant-overwritten regions stay outside: "
-                  "c02_fngen.cxx_pick and overwritten_variants drop such programs).  Forward calls: no emitted variant was parsed while a "
+                  "c02_fngen.cxx_pick and overwritten_variants drop such programs).  Call sites: a user-function call never stands where the "
+                  "transpiler does not type it (operand of a comparison / not / and / or, a condition, a range() bound, an argument of "
+                  "mon.write, an f-string: F-C02-call-site-never-typed) - every generator writes calls only as (operands of arithmetic, "
+                  "builtin calls, conditional-expression branches, tuple / list / comprehension elements of) assignment and return "
+                  "right-hand sides and as arguments of other helper calls.  Forward calls: no emitted variant was parsed while a "
                   "callee whose variant does not return int had no source (F-C02-forward-call-result-typed-int; Checker.stale_forward_variants)."),
         "unmodelled": [
             "list comprehensions nested inside another operator (len([...]), [...][0], f([...])) stay EOther in Lang/PyAst.v and are labelled int by the "
